@@ -163,8 +163,13 @@ class MaterialFile(BaseMaterial):
         """
         c = self.coefficients
         try:
-            n = c[0] + c[1]*w**c[2] / (w**2 - c[3]**c[4]) + \
-                c[5]*w**c[6] / (w**2 - c[7]**c[8])
+            c[8]  # both rational terms must be given
+            n = c[0]
+            for k in (1, 5):
+                # a term with zero coefficient is absent; its zero-padded
+                # exponents (0**0 = 1) would put a spurious pole at w = 1
+                if c[k] != 0:
+                    n = n + c[k]*w**c[k+1] / (w**2 - c[k+2]**c[k+3])
             for k in range(9, len(c), 2):
                 n += c[k]*w**c[k+1]
             return np.sqrt(n)
